@@ -50,3 +50,25 @@ def families(tier, seed):
                 ("counts", seed, 2000, ["eff"])]
     return [("counts", seed, 1500, []), ("counts", seed, 600, ["focus"]), ("counts", seed, 1500, ["singles"]),
             ("counts", seed, 1000, ["limit"]), ("counts", seed, 50000, ["eff"])]
+
+
+# ------------------------------------------------------------------------------------------------------------------------------
+# COMPOSED model, part 3 — grid level (branch compose; Model/ComposeGrid.lean, notes/compose.md "Part 3") — purely additive block.
+# The cmpg_* K lines carry ONLY the primitive setup, the range (kind F/W/SD, endpoints, step counts), the Simpson division count
+# and the delays; Spdc.Model.ComposeGrid recomputes everything (JointSpectrum::new through the composed try_as_optimum, the
+# spectra on the grid, group indices, correction factor, rates, HOM, Schmidt number) through all layers.
+import os as _os3
+import sys as _sys3
+_sys3.path.insert(0, _os3.path.dirname(_os3.path.abspath(__file__)))
+import _pmtol  # noqa: F401,E402  (tolerance kind "csum": |Δ| relative to the absolute quadrature scale printed next to the value)
+OPS = set(OPS) | {'cmpg_group_index', 'cmpg_counts_corr', 'cmpg_counts_coinc', 'cmpg_counts_singles', 'cmpg_efficiencies'}
+TOL = dict(TOL)
+TOL.update({'cmpg_group_index': ('ulp', 8), 'cmpg_counts_corr': ('ulp', 16), 'cmpg_counts_coinc': ('csum', 1e-13), 'cmpg_counts_singles': ('rel', 1e-06), 'cmpg_efficiencies': ('rel', 1e-06)})
+RULE += " | family compose/c08: the primitive-setup generator of parts 1-2 (11 crystals x 5 PM types, poled/unpoled, collinear/non-collinear, idler auto/explicit, 2/3 phase-matched) x a range around the centre frequencies (half-width 0.3-6 pump spectral widths per axis, 1/4 displaced so that part of it leaves the support; shapes 1xn, nx1, rectangles, squares, now and then an empty axis) given as FrequencySpace, WavelengthSpace or SumDiffFrequencySpace x Simpson divs from {4 (panic path of JointSpectrum::new), 5, 6, 7, 8, 10, 12, 20} (auto idlers made explicit first: the idler-singles route exchanges the object's beams): Beam::group_index of signal and idler (without poling and with the setup's), get_counts_correction, SPDC::counts_coincidences, counts_singles_signal / counts_singles_idler and SPDC::efficiencies (grids of <= 16 points)"
+LEVEL_NOTE += ' COMPOSED MODEL part 3 (notes/compose.md): the cmpg_* K ops carry NO value computed by the real crate — only the primitive setup, the range specification (FrequencySpace / WavelengthSpace / SumDiffFrequencySpace endpoints and step counts), the Simpson division count and the delays; Spdc.Model.ComposeGrid evaluates JointSpectrum::new (centre values through the composed try_as_optimum), the spectra over the grid in the row-major order of the crate, group indices / get_counts_correction, the dw^2 rectangle sums, hom_time_delay, the HOM sums and the trace-form Schmidt number on top of the composed jsa/jsi/jsi_singles. The real side builds the SPDC from exactly these primitives and calls the public API. Values governed by the oscillatory z-quadrature are compared relative to the absolute quadrature scale (kind csum), singles (rayon 2-D sums, order not fixed) at rel 1e-6.'
+CHECKER_MODULES = list(globals().get("CHECKER_MODULES", [])) + [_m for _m in ["Spdc.Real.ComposeLemmas", "Spdc.Real.ComposeAutoLemmas", "Spdc.Real.ComposeGridLemmas"] if _m not in globals().get("CHECKER_MODULES", [])]
+_families_before_compose_grid = families
+
+
+def families(tier, seed):
+    return _families_before_compose_grid(tier, seed) + [("compose", seed, 150 if tier == "quick" else 2500, ["c08"])]
